@@ -536,6 +536,7 @@ pub fn check(tier: &str) -> i32 {
         vec![Fill, Fill, Compact, Fill, Fill, Compact],
         vec![Fill, Fill, Sb, Sa, Flush, Compact],
         vec![Sb, Flush, Fill, Fill, Compact],
+        vec![Fill, Fill, Compact, Compact, Fill, Fill, Compact],
     ];
     let memo = Mutex::new(HashSet::new());
     let stats = Mutex::new(c01::Stats::default());
